@@ -429,7 +429,90 @@ def _shard(arg) -> Stats:
     return st
 
 
+def check_special_shapes(st: Stats) -> None:
+    """hand-built shapes outside the enumerator's alphabet, every entry point x flag combination:
+    (A) one value_mapper / block_mapper REUSED for two clones of the same op / region (as loop unrolling does): the second
+        copy must refer to ITS OWN values; (B) an op with two regions where the first uses a value defined in the second;
+    (C) an op whose own operand is defined inside its own region.  Source use counts must be unchanged."""
+    from xdsl.dialects.builtin import i32
+    from xdsl.dialects.test import TestOp
+    from xdsl.ir import Block, Region
+
+    def uses(v):
+        return sum(1 for _ in v.uses)
+
+    for hints in (True, False):
+        # (A1) op using its own result, cloned twice through one mapper
+        x = TestOp(result_types=[i32])
+        y = TestOp(operands=[x.results[0]], result_types=[i32])
+        blk = Block([x, y])
+        y.operands = [y.results[0]]
+        src_uses = uses(y.results[0])
+        vm: dict = {}
+        c1 = y.clone_without_regions(vm, clone_name_hints=hints)
+        c2 = y.clone_without_regions(vm, clone_name_hints=hints)
+        st.executions += 2
+        st.states += 1
+        for k, c in (("first", c1), ("second", c2)):
+            if c.operands[0] is not c.results[0]:
+                st.violate(f"C02|special|mapper-reused|clone_without_regions|{k}-copy-refers-elsewhere|hints={hints}",
+                           f"with one value_mapper reused for two clones, the {k} copy's self-use does not refer to its own result", {"shape": "A1", "hints": hints})
+        if uses(y.results[0]) != src_uses:
+            st.violate(f"C02|special|mapper-reused|clone_without_regions|source-uses-changed|hints={hints}", "cloning changed the use list of the source", {"shape": "A1"})
+        del blk
+        # (A2) region {d = def; u = use(d)} cloned twice into two destinations through the same mappers
+        d = TestOp(result_types=[i32])
+        u = TestOp(operands=[d.results[0]], result_types=[i32])
+        src = Region(Block([d, u], arg_types=[i32]))
+        u2 = TestOp(operands=[src.block.args[0]])
+        src.block.add_op(u2)
+        vm, bm = {}, {}
+        dests = [Region(), Region()]
+        for dst in dests:
+            src.clone_into(dst, None, vm, bm, clone_name_hints=hints)
+        st.executions += 2
+        st.states += 1
+        for k, dst in zip(("first", "second"), dests):
+            ops = list(dst.block.ops)
+            if ops[1].operands[0] is not ops[0].results[0] or ops[2].operands[0] is not dst.block.args[0]:
+                st.violate(f"C02|special|mapper-reused|Region.clone_into|{k}-copy-refers-elsewhere|hints={hints}",
+                           f"with the same mappers reused for two clones, the {k} copy refers to values outside itself", {"shape": "A2", "hints": hints})
+        if uses(d.results[0]) != 1 or uses(src.block.args[0]) != 1:
+            st.violate(f"C02|special|mapper-reused|Region.clone_into|source-uses-changed|hints={hints}", "cloning changed the use lists of the source", {"shape": "A2"})
+        # (B) two regions, the first uses a value defined in the second
+        v = TestOp(result_types=[i32])
+        w = TestOp(operands=[v.results[0]])
+        outer = TestOp(regions=[Region(Block([w])), Region(Block([v]))])
+        holder = Block([outer])
+        c = outer.clone(clone_name_hints=hints)
+        st.executions += 1
+        st.states += 1
+        cw, cv = list(c.regions[0].block.ops)[0], list(c.regions[1].block.ops)[0]
+        if cw.operands[0] is not cv.results[0]:
+            st.violate(f"C02|special|cross-region-forward-use|Operation.clone|copy-refers-to-source|hints={hints}",
+                       "the copy of an op whose first region uses a value of its second region still refers to the source value", {"shape": "B", "hints": hints})
+        if uses(v.results[0]) != 1:
+            st.violate(f"C02|special|cross-region-forward-use|Operation.clone|source-uses-changed|hints={hints}", "cloning added a use to a source value", {"shape": "B"})
+        del holder
+        # (C) an op whose operand is defined inside its own region
+        v = TestOp(result_types=[i32])
+        p = TestOp(operands=[v.results[0]], regions=[Region(Block([v]))])
+        holder = Block([p])
+        c = p.clone(clone_name_hints=hints)
+        st.executions += 1
+        st.states += 1
+        cv = list(c.regions[0].block.ops)[0]
+        if c.operands[0] is not cv.results[0]:
+            st.violate(f"C02|special|operand-defined-in-own-region|Operation.clone|copy-refers-to-source|hints={hints}",
+                       "the copy of an op whose operand is defined inside its own region still uses the source value", {"shape": "C", "hints": hints})
+        if uses(v.results[0]) != 1:
+            st.violate(f"C02|special|operand-defined-in-own-region|Operation.clone|source-uses-changed|hints={hints}", "cloning added a use to a source value", {"shape": "C"})
+        del holder
+    st.outcomes["special-shapes"] += 1
+
+
 def run(ctx):
+    check_special_shapes(ctx.stats)
     if ctx.quick:
         spaces = [(dict(max_blocks=2, max_ops=2, max_args=1, depth=1), 1, 64), (dict(max_blocks=1, max_ops=3, max_args=0, depth=1), 0, 64),
                   (dict(kinds="K2", max_blocks=1, max_ops=2, max_args=0, depth=0, need_term=False), 1, 16)]
@@ -451,6 +534,9 @@ def replay(rep) -> bool:
     def tup(x):
         return tuple(tup(y) for y in x) if isinstance(x, list) else x
     st = Stats()
+    if "shape" in rep["witness"]:
+        check_special_shapes(st)
+        return rep["signature"] not in st.violations
     desc = tup(rep["witness"]["desc"])
     _CUR[0] = rep["witness"].get("kinds", "K")
     check_desc(st, desc, deep=True)
